@@ -37,7 +37,7 @@ def prepare(root, wt, patch):
     r = subprocess.run(['make', 'test'], cwd=dst, capture_output=True, text=True)
     n = (r.stdout + r.stderr).count('[       OK ]')
     shutil.rmtree(os.path.join(dst, 'build'), ignore_errors=True)
-    if r.returncode != 0 or n != 15:
+    if r.returncode != 0 or n < 15:
         return name, dst, 'TESTS-FAIL exit=%d ok=%d' % (r.returncode, n)
     return name, dst, None
 
